@@ -93,7 +93,7 @@ def main(tier):
     rep = common.Report("C01", tier, "translation_validation")
     mods = struct_check.corpus()
     if tier == "quick":
-        mods = [m for m in mods if m[0] in QUICK_MODULES or not m[0].startswith("testdata/")]
+        mods = [m for m in mods if m[0] in QUICK_MODULES or struct_check.in_quick_corpus(m[0])]
     results = struct_check.run_corpus(struct_check.check_module_c01, {"nmax": 24 if tier == "quick" else 40}, mods)
     tot = {"structures": 0, "entries": 0, "compared": 0, "queries": 0, "unsat": 0, "witnesses": 0, "instrs": 0,
            "controls_fired": 0, "controls_total": 0}
